@@ -47,6 +47,11 @@ var (
 		"127.0.0.1", "1.2.3.4", "0.0.0.0", "255.255.255.255", "256.1.1.1", "1.2.3", "1.2.3.4.5", "01.2.3.4", "\uff11.2.3.4", "1.2.3.4.", "1\u30022\u30023\u30024",
 		"[::1]", "[::]", "[2001:db8::1]", "[2001:DB8::1]", "[::FFFF]", "[::ffff:1.2.3.4]", "[::ffff:0102:0304]", "[1:2:3:4:5:6:7:8]", "[fe80::1%eth0]",
 		"[127.0.0.1]", "::1", "[::1", "::1]", "[]", "[", "]", "[:]", "[::1].", "[::1]]", "[[::1]", "[::1]x", "[::g]", "[example.net]",
+		// zone identifiers (RFC 6874 / what newer address parsers accept): an
+		// address whose domainpart carried a separator, or exceeded 1023 bytes,
+		// could not be canonical
+		"[fe80::1%eth0/1]", "[fe80::1%a@b]", "[fe80::1%25eth0]", "[fe80::1%]", "[fe80::1% ]", "[::1%/]", "[::1%@]", "[fe80::1%\u00e9]",
+		"[fe80::1%" + strings.Repeat("a", 1100) + "]", "[::ffff:1.2.3.4%x]", "1.2.3.4%eth0", "::ffff:1.2.3.4", "[0:0:0:0:0:0:0:1]", "[::1]:5222", "[::1]/x",
 	}
 	// literals of the repository's own tests (also the fuzz corpus)
 	repoLiterals = []string{
